@@ -373,3 +373,52 @@ func VerifC27_keepalive() {
 		vrt.Assert(closeAfter, "C27/close-honoured")
 	}
 }
+
+// ---------------------------------------------------------------------------------------------------
+// Focused harnesses (added after the seeded-change review, see notes/C27.md).
+
+// VerifC27_overflow: a handler that declares Content-Length 2 or 3 and then writes 0..3 + 0..3 bytes:
+// writes whose running total crosses the declared length are refused as a whole, so the wire may carry
+// fewer bytes than declared although the handler "wrote" more; then the connection must be closed.
+func VerifC27_overflow() {
+	var s scenarioC27
+	s.status = 200
+	s.hCL = handlerCLC27[1+vrt.Choose("cl", 2)] // "2", "3"
+	s.w1 = vrt.Range("w1", 0, 3)
+	s.w2 = vrt.Range("w2", 0, 3)
+	s.flush = vrt.Bool("flush")
+	out, sent, closeAfter := runC27(s)
+	checkC27(s, out, sent, closeAfter)
+}
+
+// VerifC27_largeWrite: one Write of 64 KiB or more on a chunked (HTTP/1.1, no Content-Length) response.
+// bufio passes a write larger than its buffer straight through, so the whole write becomes one chunk
+// with a 5-digit size line. The body is concrete; the decision is the reference parser's.
+func VerifC27_largeWrite() {
+	n := []int{0x10000, 0x12345}[vrt.Choose("size", 2)]
+	srv := &BfeServer{}
+	srv.BufioCache = NewBufioCache()
+	srv.CloseNotifyCh = make(chan bool)
+	var wire bytes.Buffer
+	c := &conn{server: srv, rwc: &fakeConnC27{}}
+	c.buf = bfe_bufio.NewReadWriter(bfe_bufio.NewReader(bytes.NewReader(nil)), bfe_bufio.NewWriter(&wire))
+	req := &bfe_http.Request{Method: "GET", Proto: "HTTP/1.1", ProtoMajor: 1, ProtoMinor: 1,
+		Header: bfe_http.Header{}, Body: bfe_http.EofReader}
+	w := newResponse(c, req)
+	h := w.Header()
+	h.Set("Date", "D")
+	h.Set("Content-Type", "text/x")
+	h.Set("X-A", "1")
+	w.WriteHeader(200)
+	big := bytes.Repeat([]byte("0123456789abcde\n"), n/16+1)[:n]
+	var sent []byte
+	if vrt.Bool("small-first") { // 2 bytes wait in the 512-byte staging buffer when the large write arrives
+		w.Write([]byte("ab"))
+		sent = append(sent, "ab"...)
+	}
+	w.Write(big)
+	sent = append(sent, big...)
+	w.finishRequest()
+	s := scenarioC27{status: 200}
+	checkC27(s, wire.Bytes(), sent, w.closeAfterReply)
+}
